@@ -222,3 +222,33 @@ def dict_diff(a, b, path=""):
     if a != b or type(a) != type(b):
         return "%s: %r vs %r" % (path, a, b)
     return None
+
+
+def outgoing_closed(netlist):
+    """Every pointer that leaves an element owned by the netlist lands in something the netlist owns.
+
+    Reference-set members are not looked at: instances outside the netlist may reference its definitions (for
+    example the children of a definition that was removed from its library); a copy simply does not have them.
+    """
+    own = owned_ids(netlist)
+    insts = [i for lib in netlist.libraries for d in lib.definitions for i in d.children]
+    top = netlist.top_instance
+    if top is not None and id(top) in own and not any(top is i for i in insts):
+        insts.append(top)
+    for i in insts:
+        if i.reference is not None and id(i.reference) not in own:
+            return False
+        for ip, op in i.pins.items():
+            if id(ip) not in own or (op.wire is not None and id(op.wire) not in own):
+                return False
+    for lib in netlist.libraries:
+        for d in lib.definitions:
+            for p in d.ports:
+                for ip in p.pins:
+                    if ip.wire is not None and id(ip.wire) not in own:
+                        return False
+            for c in d.cables:
+                for wr in c.wires:
+                    if any(id(x) not in own for x in wr.pins):
+                        return False
+    return True
